@@ -376,7 +376,7 @@ func (c *DefaultCtx) Body() []byte {
 func (c *DefaultCtx) ClearCookie(key ...string) {
 	if len(key) > 0 {
 		for i := range key {
-			c.fasthttp.Response.Header.DelClientCookie(key[i])
+			c.fasthttp.Response.Header.DelClientCookie(sanitizeHeaderValue(key[i]))
 		}
 		return
 	}
@@ -411,10 +411,11 @@ func (c *DefaultCtx) SetContext(ctx context.Context) {
 // Cookie sets a cookie by passing a cookie struct.
 func (c *DefaultCtx) Cookie(cookie *Cookie) {
 	fcookie := fasthttp.AcquireCookie()
-	fcookie.SetKey(cookie.Name)
-	fcookie.SetValue(cookie.Value)
-	fcookie.SetPath(cookie.Path)
-	fcookie.SetDomain(cookie.Domain)
+	// fasthttp writes the cookie fields into the Set-Cookie line as they are
+	fcookie.SetKey(sanitizeHeaderValue(cookie.Name))
+	fcookie.SetValue(sanitizeHeaderValue(cookie.Value))
+	fcookie.SetPath(sanitizeHeaderValue(cookie.Path))
+	fcookie.SetDomain(sanitizeHeaderValue(cookie.Domain))
 	// only set max age and expiry when SessionOnly is false
 	// i.e. cookie supposed to last beyond browser session
 	// refer: https://developer.mozilla.org/en-US/docs/Web/HTTP/Cookies#define_the_lifetime_of_a_cookie
